@@ -20,16 +20,16 @@ import (
 type outcomeKind int
 
 const (
-	okValue    outcomeKind = iota // a value (scalar or list), compared exactly
-	okNotFound                    // errors.Is(err, ErrTagNotFound), and not the more specific not-defined error
-	okAbsentLenient               // errors.Is(err, ErrTagNotFound) (empty input: nothing was decoded)
-	okNotDefined                  // errors.Is(err, ErrTagNotDefined)
-	okNoNesting                   // tag declared without nesting used as a path element: any error of the not-found family
-	okMismatch                    // *WireTypeMismatchError
-	okOverflow                    // errors.Is(err, csproto.ErrValueOverflow)
-	okAnyError                    // some error (malformed packed run)
-	okValueOrOverflow             // statement leaves it open: the value given, or an overflow error
-	okUnjudged                    // outside the precondition (e.g. a 10-byte varint with overflow bits inside a packed run)
+	okValue           outcomeKind = iota // a value (scalar or list), compared exactly
+	okNotFound                           // errors.Is(err, ErrTagNotFound), and not the more specific not-defined error
+	okAbsentLenient                      // errors.Is(err, ErrTagNotFound) (empty input: nothing was decoded)
+	okNotDefined                         // errors.Is(err, ErrTagNotDefined)
+	okNoNesting                          // tag declared without nesting used as a path element: any error of the not-found family
+	okMismatch                           // *WireTypeMismatchError
+	okOverflow                           // errors.Is(err, csproto.ErrValueOverflow)
+	okAnyError                           // some error (malformed packed run)
+	okValueOrOverflow                    // statement leaves it open: the value given, or an overflow error
+	okUnjudged                           // outside the precondition (e.g. a 10-byte varint with overflow bits inside a packed run)
 )
 
 func (k outcomeKind) String() string {
@@ -39,8 +39,8 @@ func (k outcomeKind) String() string {
 type outcome struct {
 	kind outcomeKind
 	// canonical value: scalars as []uint64{bits} / [][]byte{payload}; lists element-wise
-	nums  []uint64
-	blobs [][]byte
+	nums   []uint64
+	blobs  [][]byte
 	isBlob bool
 }
 
@@ -68,8 +68,8 @@ func sblob(v string) got { return got{blobs: [][]byte{[]byte(v)}, strs: []string
 
 func ident(v uint64) (uint64, outcomeKind) { return v, okValue }
 
-func one(v uint64) got   { return got{nums: []uint64{v}} }
-func blob(b []byte) got  { return got{blobs: [][]byte{b}} }
+func one(v uint64) got  { return got{nums: []uint64{v}} }
+func blob(b []byte) got { return got{blobs: [][]byte{b}} }
 func b2u(b bool) uint64 {
 	if b {
 		return 1
@@ -93,65 +93,152 @@ var accessors = []accessor{
 		onFD:  func(fd *lazyproto.FieldData) (got, error) { v, e := fd.BoolValues(); return listOf(v, b2u), e },
 		onRes: func(r *lazyproto.DecodeResult, t int) (got, error) { v, e := r.BoolValues(t); return listOf(v, b2u), e }},
 	{name: "UInt32Value", wt: 0, conv: convU32,
-		onFD:  func(fd *lazyproto.FieldData) (got, error) { v, e := fd.UInt32Value(); return one(uint64(v)), e },
-		onRes: func(r *lazyproto.DecodeResult, t int) (got, error) { v, e := r.UInt32Value(t); return one(uint64(v)), e }},
+		onFD: func(fd *lazyproto.FieldData) (got, error) { v, e := fd.UInt32Value(); return one(uint64(v)), e },
+		onRes: func(r *lazyproto.DecodeResult, t int) (got, error) {
+			v, e := r.UInt32Value(t)
+			return one(uint64(v)), e
+		}},
 	{name: "UInt32Values", list: true, wt: 0, conv: convU32,
-		onFD:  func(fd *lazyproto.FieldData) (got, error) { v, e := fd.UInt32Values(); return listOf(v, func(x uint32) uint64 { return uint64(x) }), e },
-		onRes: func(r *lazyproto.DecodeResult, t int) (got, error) { v, e := r.UInt32Values(t); return listOf(v, func(x uint32) uint64 { return uint64(x) }), e }},
+		onFD: func(fd *lazyproto.FieldData) (got, error) {
+			v, e := fd.UInt32Values()
+			return listOf(v, func(x uint32) uint64 { return uint64(x) }), e
+		},
+		onRes: func(r *lazyproto.DecodeResult, t int) (got, error) {
+			v, e := r.UInt32Values(t)
+			return listOf(v, func(x uint32) uint64 { return uint64(x) }), e
+		}},
 	{name: "Int32Value", wt: 0, conv: convI32,
-		onFD:  func(fd *lazyproto.FieldData) (got, error) { v, e := fd.Int32Value(); return one(uint64(uint32(v))), e },
-		onRes: func(r *lazyproto.DecodeResult, t int) (got, error) { v, e := r.Int32Value(t); return one(uint64(uint32(v))), e }},
+		onFD: func(fd *lazyproto.FieldData) (got, error) { v, e := fd.Int32Value(); return one(uint64(uint32(v))), e },
+		onRes: func(r *lazyproto.DecodeResult, t int) (got, error) {
+			v, e := r.Int32Value(t)
+			return one(uint64(uint32(v))), e
+		}},
 	{name: "Int32Values", list: true, wt: 0, conv: convI32,
-		onFD:  func(fd *lazyproto.FieldData) (got, error) { v, e := fd.Int32Values(); return listOf(v, func(x int32) uint64 { return uint64(uint32(x)) }), e },
-		onRes: func(r *lazyproto.DecodeResult, t int) (got, error) { v, e := r.Int32Values(t); return listOf(v, func(x int32) uint64 { return uint64(uint32(x)) }), e }},
+		onFD: func(fd *lazyproto.FieldData) (got, error) {
+			v, e := fd.Int32Values()
+			return listOf(v, func(x int32) uint64 { return uint64(uint32(x)) }), e
+		},
+		onRes: func(r *lazyproto.DecodeResult, t int) (got, error) {
+			v, e := r.Int32Values(t)
+			return listOf(v, func(x int32) uint64 { return uint64(uint32(x)) }), e
+		}},
 	{name: "SInt32Value", wt: 0, conv: convS32,
-		onFD:  func(fd *lazyproto.FieldData) (got, error) { v, e := fd.SInt32Value(); return one(uint64(uint32(v))), e },
-		onRes: func(r *lazyproto.DecodeResult, t int) (got, error) { v, e := r.SInt32Value(t); return one(uint64(uint32(v))), e }},
+		onFD: func(fd *lazyproto.FieldData) (got, error) { v, e := fd.SInt32Value(); return one(uint64(uint32(v))), e },
+		onRes: func(r *lazyproto.DecodeResult, t int) (got, error) {
+			v, e := r.SInt32Value(t)
+			return one(uint64(uint32(v))), e
+		}},
 	{name: "SInt32Values", list: true, wt: 0, conv: convS32,
-		onFD:  func(fd *lazyproto.FieldData) (got, error) { v, e := fd.SInt32Values(); return listOf(v, func(x int32) uint64 { return uint64(uint32(x)) }), e },
-		onRes: func(r *lazyproto.DecodeResult, t int) (got, error) { v, e := r.SInt32Values(t); return listOf(v, func(x int32) uint64 { return uint64(uint32(x)) }), e }},
+		onFD: func(fd *lazyproto.FieldData) (got, error) {
+			v, e := fd.SInt32Values()
+			return listOf(v, func(x int32) uint64 { return uint64(uint32(x)) }), e
+		},
+		onRes: func(r *lazyproto.DecodeResult, t int) (got, error) {
+			v, e := r.SInt32Values(t)
+			return listOf(v, func(x int32) uint64 { return uint64(uint32(x)) }), e
+		}},
 	{name: "UInt64Value", wt: 0, conv: ident,
 		onFD:  func(fd *lazyproto.FieldData) (got, error) { v, e := fd.UInt64Value(); return one(v), e },
 		onRes: func(r *lazyproto.DecodeResult, t int) (got, error) { v, e := r.UInt64Value(t); return one(v), e }},
 	{name: "UInt64Values", list: true, wt: 0, conv: ident,
-		onFD:  func(fd *lazyproto.FieldData) (got, error) { v, e := fd.UInt64Values(); return listOf(v, func(x uint64) uint64 { return x }), e },
-		onRes: func(r *lazyproto.DecodeResult, t int) (got, error) { v, e := r.UInt64Values(t); return listOf(v, func(x uint64) uint64 { return x }), e }},
+		onFD: func(fd *lazyproto.FieldData) (got, error) {
+			v, e := fd.UInt64Values()
+			return listOf(v, func(x uint64) uint64 { return x }), e
+		},
+		onRes: func(r *lazyproto.DecodeResult, t int) (got, error) {
+			v, e := r.UInt64Values(t)
+			return listOf(v, func(x uint64) uint64 { return x }), e
+		}},
 	{name: "Int64Value", wt: 0, conv: ident,
 		onFD:  func(fd *lazyproto.FieldData) (got, error) { v, e := fd.Int64Value(); return one(uint64(v)), e },
 		onRes: func(r *lazyproto.DecodeResult, t int) (got, error) { v, e := r.Int64Value(t); return one(uint64(v)), e }},
 	{name: "Int64Values", list: true, wt: 0, conv: ident,
-		onFD:  func(fd *lazyproto.FieldData) (got, error) { v, e := fd.Int64Values(); return listOf(v, func(x int64) uint64 { return uint64(x) }), e },
-		onRes: func(r *lazyproto.DecodeResult, t int) (got, error) { v, e := r.Int64Values(t); return listOf(v, func(x int64) uint64 { return uint64(x) }), e }},
+		onFD: func(fd *lazyproto.FieldData) (got, error) {
+			v, e := fd.Int64Values()
+			return listOf(v, func(x int64) uint64 { return uint64(x) }), e
+		},
+		onRes: func(r *lazyproto.DecodeResult, t int) (got, error) {
+			v, e := r.Int64Values(t)
+			return listOf(v, func(x int64) uint64 { return uint64(x) }), e
+		}},
 	{name: "SInt64Value", wt: 0, conv: func(v uint64) (uint64, outcomeKind) { return uint64(refwire.UnZigZag64(v)), okValue },
-		onFD:  func(fd *lazyproto.FieldData) (got, error) { v, e := fd.SInt64Value(); return one(uint64(v)), e },
-		onRes: func(r *lazyproto.DecodeResult, t int) (got, error) { v, e := r.SInt64Value(t); return one(uint64(v)), e }},
+		onFD: func(fd *lazyproto.FieldData) (got, error) { v, e := fd.SInt64Value(); return one(uint64(v)), e },
+		onRes: func(r *lazyproto.DecodeResult, t int) (got, error) {
+			v, e := r.SInt64Value(t)
+			return one(uint64(v)), e
+		}},
 	{name: "SInt64Values", list: true, wt: 0, conv: func(v uint64) (uint64, outcomeKind) { return uint64(refwire.UnZigZag64(v)), okValue },
-		onFD:  func(fd *lazyproto.FieldData) (got, error) { v, e := fd.SInt64Values(); return listOf(v, func(x int64) uint64 { return uint64(x) }), e },
-		onRes: func(r *lazyproto.DecodeResult, t int) (got, error) { v, e := r.SInt64Values(t); return listOf(v, func(x int64) uint64 { return uint64(x) }), e }},
+		onFD: func(fd *lazyproto.FieldData) (got, error) {
+			v, e := fd.SInt64Values()
+			return listOf(v, func(x int64) uint64 { return uint64(x) }), e
+		},
+		onRes: func(r *lazyproto.DecodeResult, t int) (got, error) {
+			v, e := r.SInt64Values(t)
+			return listOf(v, func(x int64) uint64 { return uint64(x) }), e
+		}},
 	{name: "Fixed32Value", wt: 5, conv: ident,
-		onFD:  func(fd *lazyproto.FieldData) (got, error) { v, e := fd.Fixed32Value(); return one(uint64(v)), e },
-		onRes: func(r *lazyproto.DecodeResult, t int) (got, error) { v, e := r.Fixed32Value(t); return one(uint64(v)), e }},
+		onFD: func(fd *lazyproto.FieldData) (got, error) { v, e := fd.Fixed32Value(); return one(uint64(v)), e },
+		onRes: func(r *lazyproto.DecodeResult, t int) (got, error) {
+			v, e := r.Fixed32Value(t)
+			return one(uint64(v)), e
+		}},
 	{name: "Fixed32Values", list: true, wt: 5, conv: ident,
-		onFD:  func(fd *lazyproto.FieldData) (got, error) { v, e := fd.Fixed32Values(); return listOf(v, func(x uint32) uint64 { return uint64(x) }), e },
-		onRes: func(r *lazyproto.DecodeResult, t int) (got, error) { v, e := r.Fixed32Values(t); return listOf(v, func(x uint32) uint64 { return uint64(x) }), e }},
+		onFD: func(fd *lazyproto.FieldData) (got, error) {
+			v, e := fd.Fixed32Values()
+			return listOf(v, func(x uint32) uint64 { return uint64(x) }), e
+		},
+		onRes: func(r *lazyproto.DecodeResult, t int) (got, error) {
+			v, e := r.Fixed32Values(t)
+			return listOf(v, func(x uint32) uint64 { return uint64(x) }), e
+		}},
 	{name: "Float32Value", wt: 5, conv: ident,
-		onFD:  func(fd *lazyproto.FieldData) (got, error) { v, e := fd.Float32Value(); return one(uint64(math.Float32bits(v))), e },
-		onRes: func(r *lazyproto.DecodeResult, t int) (got, error) { v, e := r.Float32Value(t); return one(uint64(math.Float32bits(v))), e }},
+		onFD: func(fd *lazyproto.FieldData) (got, error) {
+			v, e := fd.Float32Value()
+			return one(uint64(math.Float32bits(v))), e
+		},
+		onRes: func(r *lazyproto.DecodeResult, t int) (got, error) {
+			v, e := r.Float32Value(t)
+			return one(uint64(math.Float32bits(v))), e
+		}},
 	{name: "Float32Values", list: true, wt: 5, conv: ident,
-		onFD:  func(fd *lazyproto.FieldData) (got, error) { v, e := fd.Float32Values(); return listOf(v, func(x float32) uint64 { return uint64(math.Float32bits(x)) }), e },
-		onRes: func(r *lazyproto.DecodeResult, t int) (got, error) { v, e := r.Float32Values(t); return listOf(v, func(x float32) uint64 { return uint64(math.Float32bits(x)) }), e }},
+		onFD: func(fd *lazyproto.FieldData) (got, error) {
+			v, e := fd.Float32Values()
+			return listOf(v, func(x float32) uint64 { return uint64(math.Float32bits(x)) }), e
+		},
+		onRes: func(r *lazyproto.DecodeResult, t int) (got, error) {
+			v, e := r.Float32Values(t)
+			return listOf(v, func(x float32) uint64 { return uint64(math.Float32bits(x)) }), e
+		}},
 	{name: "Fixed64Value", wt: 1, conv: ident,
 		onFD:  func(fd *lazyproto.FieldData) (got, error) { v, e := fd.Fixed64Value(); return one(v), e },
 		onRes: func(r *lazyproto.DecodeResult, t int) (got, error) { v, e := r.Fixed64Value(t); return one(v), e }},
 	{name: "Fixed64Values", list: true, wt: 1, conv: ident,
-		onFD:  func(fd *lazyproto.FieldData) (got, error) { v, e := fd.Fixed64Values(); return listOf(v, func(x uint64) uint64 { return x }), e },
-		onRes: func(r *lazyproto.DecodeResult, t int) (got, error) { v, e := r.Fixed64Values(t); return listOf(v, func(x uint64) uint64 { return x }), e }},
+		onFD: func(fd *lazyproto.FieldData) (got, error) {
+			v, e := fd.Fixed64Values()
+			return listOf(v, func(x uint64) uint64 { return x }), e
+		},
+		onRes: func(r *lazyproto.DecodeResult, t int) (got, error) {
+			v, e := r.Fixed64Values(t)
+			return listOf(v, func(x uint64) uint64 { return x }), e
+		}},
 	{name: "Float64Value", wt: 1, conv: ident,
-		onFD:  func(fd *lazyproto.FieldData) (got, error) { v, e := fd.Float64Value(); return one(math.Float64bits(v)), e },
-		onRes: func(r *lazyproto.DecodeResult, t int) (got, error) { v, e := r.Float64Value(t); return one(math.Float64bits(v)), e }},
+		onFD: func(fd *lazyproto.FieldData) (got, error) {
+			v, e := fd.Float64Value()
+			return one(math.Float64bits(v)), e
+		},
+		onRes: func(r *lazyproto.DecodeResult, t int) (got, error) {
+			v, e := r.Float64Value(t)
+			return one(math.Float64bits(v)), e
+		}},
 	{name: "Float64Values", list: true, wt: 1, conv: ident,
-		onFD:  func(fd *lazyproto.FieldData) (got, error) { v, e := fd.Float64Values(); return listOf(v, math.Float64bits), e },
-		onRes: func(r *lazyproto.DecodeResult, t int) (got, error) { v, e := r.Float64Values(t); return listOf(v, math.Float64bits), e }},
+		onFD: func(fd *lazyproto.FieldData) (got, error) {
+			v, e := fd.Float64Values()
+			return listOf(v, math.Float64bits), e
+		},
+		onRes: func(r *lazyproto.DecodeResult, t int) (got, error) {
+			v, e := r.Float64Values(t)
+			return listOf(v, math.Float64bits), e
+		}},
 	{name: "StringValue", wt: 2, isBlob: true,
 		onFD:  func(fd *lazyproto.FieldData) (got, error) { v, e := fd.StringValue(); return sblob(v), e },
 		onRes: func(r *lazyproto.DecodeResult, t int) (got, error) { v, e := r.StringValue(t); return sblob(v), e }},
@@ -199,9 +286,9 @@ func convS32(v uint64) (uint64, outcomeKind) {
 
 // level is the reference view of one message: per field number, its occurrences in wire order.
 type level struct {
-	raw    []byte
-	fields []refwire.Field
-	byNum  map[int][]refwire.Field
+	raw        []byte
+	fields     []refwire.Field
+	byNum      map[int][]refwire.Field
 	wellFormed bool
 	// uniformWT: every number uses one wire type throughout
 	mixed map[int]bool
